@@ -1973,7 +1973,12 @@ impl VmGreenThread {
             }
             Instr::DivFloatImm(dest, reg1, imm) => {
                 let a = self.load_offset_or_top(reg1).get_float(self);
-                self.store_offset_or_top(dest, a / self.shared.float_constants[imm as usize]);
+                let b = self.shared.float_constants[imm as usize];
+                if b == 0.0 {
+                    self.error = Some(self.make_error(VmErrorKind::DivisionByZero).into());
+                    return false;
+                }
+                self.store_offset_or_top(dest, a / b);
             }
             Instr::PowerFloat(dest, reg1, reg2) => {
                 let b = self.load_offset_or_top(reg2).get_float(self);
